@@ -53,6 +53,7 @@ pub struct RunCfg {
     pub spurious_pct: u32,
     pub seed: u64,
     pub run: u64,
+    pub main_drops_first: bool,
 }
 
 impl RunCfg {
@@ -60,7 +61,7 @@ impl RunCfg {
         crate::jobj!(
             "freelist" => self.freelist.name(), "unify" => self.unify, "min_seg" => self.min_seg, "cap_room" => self.cap_room,
             "threads" => self.threads, "prelude_blocks" => self.prelude_blocks, "top_room" => self.top_room, "family" => if self.family_b { "B" } else { "A" },
-            "strategy" => format!("{:?}", self.strategy), "spurious_pct" => self.spurious_pct,
+            "strategy" => format!("{:?}", self.strategy), "spurious_pct" => self.spurious_pct, "main_drops_first" => self.main_drops_first,
             "programs" => J::Arr(self.programs.iter().map(|p| J::Arr(p.iter().map(|o| J::Str(format!("{:?}", o))).collect())).collect()),
         )
     }
@@ -516,6 +517,7 @@ pub fn run_once(rc: &RunCfg, replay: Option<Vec<u8>>) -> RunResult {
         .with_maximum_retries(rc.retries);
     let arena: sync::Arena = opts.alloc().expect("arena");
     let base = arena.raw_ptr() as usize;
+    let watch_slot = crate::watch::watch(base);
     {
         let mut c = lock();
         *c = Core::empty();
@@ -630,6 +632,7 @@ pub fn run_once(rc: &RunCfg, replay: Option<Vec<u8>>) -> RunResult {
     }
     // wait until all workers have registered, then hand the token to the first
     let s = sched();
+    let mut arena_opt = Some(arena);
     {
         let mut c = lock();
         loop {
@@ -639,6 +642,16 @@ pub fn run_once(rc: &RunCfg, replay: Option<Vec<u8>>) -> RunResult {
             drop(c);
             std::thread::yield_now();
             c = lock();
+        }
+        if rc.main_drops_first {
+            // the creator's value goes first: the last holders are workers, dropped under the scheduler
+            drop(c);
+            lock().op[MAIN] = OpCtx { kind: "drop_arena", index: 0, events: 0 };
+            if let Some(a) = arena_opt.take() {
+                drop(a);
+            }
+            c = lock();
+            c.holders -= 1;
         }
         let first = c.pick(MAIN);
         c.current = if first == MAIN { 1 } else { first };
@@ -666,12 +679,35 @@ pub fn run_once(rc: &RunCfg, replay: Option<Vec<u8>>) -> RunResult {
     let mut freelist_after = String::new();
     if aborted {
         // leak everything; the arena memory stays valid for the witness
-        freelist_after = format!("{:?}", arena.__verif_freelist(64));
+        if let Some(arena) = arena_opt.take() {
+            freelist_after = format!("{:?}", arena.__verif_freelist(64));
+            std::mem::forget(arena);
+        }
         if let Some(x) = MAILBOX.lock().unwrap().take() {
             std::mem::forget(x);
         }
-        std::mem::forget(arena);
+    } else if arena_opt.is_none() {
+        // main dropped its value first: the workers were the last holders
+        let mb = MAILBOX.lock().unwrap().take();
+        if let Some((h, hid, ..)) = mb {
+            unregister(MAIN, hid, true);
+            drop(h.0);
+            lock().holders -= 1;
+        }
+        let mut c = lock();
+        if let Some(ws) = watch_slot {
+            let freed = crate::watch::freed(ws);
+            c.refs_checks += 1;
+            if c.holders == 0 && freed != 1 {
+                let msg = format!("every arena value and owned handle has been dropped (the last ones by worker threads) but the Vec backing block was freed {} times", freed);
+                c.viol(&["C13"], if freed == 0 { "backing-never-freed".into() } else { "backing-freed-twice".into() }, msg);
+            } else if c.holders > 0 && freed != 0 {
+                let msg = format!("{} owned handles are still alive (leaked by the program) but the Vec backing block was freed {} times", c.holders, freed);
+                c.viol(&["C13", "C12"], "backing-freed-early".into(), msg);
+            }
+        }
     } else {
+        let arena = arena_opt.take().unwrap();
         // quiescent: structural check of the free list, then drop the last arena value on main
         let snap = arena.__verif_freelist(4096);
         {
@@ -696,11 +732,25 @@ pub fn run_once(rc: &RunCfg, replay: Option<Vec<u8>>) -> RunResult {
         if let Some((h, hid, ..)) = mb {
             unregister(MAIN, hid, true);
             drop(h.0);
+            lock().holders -= 1;
         }
         lock().last_decrement_by = None;
         lock().op[MAIN] = OpCtx { kind: "drop_arena", index: 0, events: 0 };
         drop(arena);
         let mut c = lock();
+        c.holders -= 1;
+        // C13: the backing store is released exactly once, when the number of holders reaches zero
+        if let Some(ws) = watch_slot {
+            let freed = crate::watch::freed(ws);
+            c.refs_checks += 1;
+            if c.holders == 0 && freed != 1 {
+                let msg = format!("every arena value and owned handle has been dropped but the Vec backing block was freed {} times", freed);
+                c.viol(&["C13"], if freed == 0 { "backing-never-freed".into() } else { "backing-freed-twice".into() }, msg);
+            } else if c.holders > 0 && freed != 0 {
+                let msg = format!("{} owned handles are still alive (leaked by the program) but the Vec backing block was freed {} times", c.holders, freed);
+                c.viol(&["C13", "C12"], "backing-freed-early".into(), msg);
+            }
+        }
         if c.last_decrement_by == Some(MAIN) {
             c.final_free_checks += 1;
             for u in 1..c.n {
@@ -711,6 +761,9 @@ pub fn run_once(rc: &RunCfg, replay: Option<Vec<u8>>) -> RunResult {
                 }
             }
         }
+    }
+    if let Some(ws) = watch_slot {
+        crate::watch::unwatch(ws);
     }
     let mut c = lock();
     c.active = false;
@@ -779,6 +832,7 @@ pub fn sample_run_cfg(rng: &mut Rng, seed: u64, run: u64, prop: &str, family_b: 
         spurious_pct: if rng.chance(1, 4) { 10 } else { 0 },
         seed,
         run,
+        main_drops_first: rng.chance(1, 2),
     }
 }
 
